@@ -424,6 +424,8 @@ func (w *World) registerSortQueryIntrinsics() {
 		}
 		return nil
 	}
+	// sort.SliceStable sorts blocks of up to 20 elements by the same insertion sort
+	I["sort.SliceStable"] = I["sort.Slice"]
 	qesc := func(t *Term) *Term {
 		if s, ok := t.strVal(); ok {
 			return mkStr(url.QueryEscape(s))
